@@ -205,6 +205,17 @@ def exec_cache(trace, prop) -> Result:
     cfg = trace["config"]
     res = Result()
     sut, pm = make_sut(cfg)
+    # a decoy: a second memory system with the other write policy, other replacement policy and another
+    # geometry, created after the one under observation and exercised alternately with it (state shared
+    # between cache / memory objects only shows when objects with different settings coexist)
+    decoy = None
+    if trace.get("decoy"):
+        dcfg = dict(cfg, kind="wt" if cfg["kind"] == "wb" else "wb", strat="plru" if cfg["strat"] == "lru" else "lru",
+                    ways=2 if cfg["ways"] != 2 else 4, ib=(cfg["ib"] + 1) % 3, bb=(cfg["bb"] + 1) % 3, pen=cfg["pen"] + 1)
+        try:
+            decoy, _dpm = make_sut(dcfg)
+        except Exception:  # noqa: BLE001
+            decoy = None
     model = ByteStore()
     ref = RefCache(cfg["kind"], cfg["ib"], cfg["bb"], cfg["ways"], cfg["strat"])
     # the sets this history can address (incl. the neighbour word of a crossing access)
@@ -267,6 +278,11 @@ def exec_cache(trace, prop) -> Result:
             if cls != "ok" and prop == "C03":
                 rw = resident_words(sut, idxs)
                 pre_logical = {wa: logical_word(sut, wa, rw) for wa in touched}
+        if decoy is not None and kind in ("R", "W", "PRE"):
+            dop = list(op)
+            if kind != "R":
+                dop[3] = (op[3] ^ 0x5A5A5A5A) & ((1 << (8 * op[1])) - 1)
+            do_op(decoy, dop, m)
         out = do_op(sut, op, m)
         status, value = out
         post_ctr = counters(sut, pm)
@@ -852,7 +868,13 @@ class _MemBatch(Batch):
             if still_fails(mk(ops, cand)):
                 best = cand
         ops = ddmin_list(ops, still_fails, budget, rebuild=lambda o: mk(o, best))
-        return mk(ops, best)
+        out = mk(ops, best)
+        if out.get("decoy") and not budget.spent():
+            cand = {**out, "decoy": False}
+            budget.tick()
+            if still_fails(cand):
+                out = cand
+        return out
 
 
 class CacheHistories(_MemBatch):
